@@ -270,3 +270,86 @@ class MroDistance(Contract):
 def ast_unparse(node):
     import ast
     return ast.unparse(node)
+
+
+@register
+class GetApplicableOffers(Contract):
+    """_get_applicable_offers(current_protocol, path): exactly the registered offers whose source protocol the current protocol
+    provides NOW (mro_distance_to_protocol, through its contract, not None), each with that distance, EXCEPT the offers already
+    used on the path ('each used at most once'); nothing is registered, removed or reordered.
+    Shape: two source protocols with two offers each (loops unrolled; contents symbolic)."""
+    path = PATH
+    qualname = "AdaptationManager._get_applicable_offers"
+    properties = ("C17",)
+    class_paths = (PATH,)
+    assumptions = ("A-PY", "mro_distance_to_protocol through its contract", "bounded shape: 2 source protocols x 2 offers, loops unrolled (contents symbolic)")
+
+    def configure(self, cx, I, ov):
+        cx.const("None")
+        self.cur = z3.Const("current_protocol", Val)
+        self.protos = [z3.Const("from_protocol_%d" % i, Val) for i in range(2)]
+        self.offers = {(i, j): z3.Const("offer_%d_%d" % (i, j), Val) for i in range(2) for j in range(2)}
+        self.dist = z3.Function("mro_distance", Val, Val, z3.IntSort())
+        self.path = z3.Const("offers_on_the_path", SeqV)
+        outer = self
+
+        class Dist(Contract):
+            path = PATH
+            qualname = "AdaptationManager.mro_distance_to_protocol"
+
+            def summary(self_, I2, self_ref, args, kwargs, st, k):
+                a, b = as_val(I2.cx, args[0], st), as_val(I2.cx, args[1], st)
+                st2 = st.gset("asked", st.ghost.get("asked", ()) + ((a, b),))
+                return I2.cx.branch(st2, provides(a, b), lambda s: k(VInt(outer.dist(a, b)), s.assume(outer.dist(a, b) >= 0)), lambda s: k(NONE, s))
+        cx.contracts = dict(cx.contracts)
+        cx.contracts[("AdaptationManager", "mro_distance_to_protocol")] = Dist()
+
+        def call_hook(I2, fv, args, kwargs, st, k):
+            if isinstance(fv, VFunc) and fv.kind == "unbound_repo" and fv.name == "mro_distance_to_protocol":
+                return Dist().summary(I2, None, args, kwargs, st, k)
+            return None
+        cx.call_hook = call_hook
+        cx.elem_attrs["from_protocol"] = lambda I2, o, st, k: k(VElem(z3.Function("from_protocol_of", Val, Val)(o.t)), st)
+
+    def setup(self, cx, I, ov):
+        st = St()
+        self_ref = VRef(cx.new_oid())
+        fp = z3.Function("from_protocol_of", Val, Val)
+        buckets = []
+        for i in range(2):
+            r = VRef(cx.new_oid())
+            st = st.put(r.oid, HObj("list", z3.Concat(z3.Unit(self.offers[(i, 0)]), z3.Unit(self.offers[(i, 1)])), None, None,
+                                    {"pyitems": [VElem(self.offers[(i, 0)]), VElem(self.offers[(i, 1)])]}))
+            buckets.append(r)
+            st = st.assume(fp(self.offers[(i, 0)]) == self.protos[i], fp(self.offers[(i, 1)]) == self.protos[i])
+        table = VTuple([VTuple([VStr(const="name%d" % i), buckets[i]]) for i in range(2)])
+
+        def items_apply(I2, a, kw, s, kk):
+            return kk(table, s)
+        offers_obj = VRef(cx.new_oid())
+        st = st.put(offers_obj.oid, HObj("obj", None, None, {"items": VFunc("opaque", name="items", apply=items_apply)}))
+        st = st.put(self_ref.oid, HObj("obj", None, "AdaptationManager", {"_adaptation_offers": offers_obj}))
+        pref = VRef(cx.new_oid())
+        st = st.put(pref.oid, HObj("list", self.path))
+        st = st.assume(z3.Distinct(*self.offers.values()), self.protos[0] != self.protos[1])
+        return st, [self_ref, VElem(self.cur), pref], {}, dict(witness={})
+
+    def post(self, cx, I, ov, info, kind, payload, st):
+        if kind == "raise":
+            return [("exc-free", z3.BoolVal(False), dict(exception="%s %r" % (payload.cname or payload.sym, payload.origin)))]
+        if not isinstance(payload, VRef):
+            return [("post:returns-the-list-of-edges", z3.BoolVal(False))]
+        h = st.heap[payload.oid]
+        edges = h.payload
+        # expected: in registration order, every offer of an applicable bucket that is not on the path, paired with the distance
+        exp = EMPTY_SEQ
+        for i in range(2):
+            for j in range(2):
+                o = self.offers[(i, j)]
+                on_path = z3.Contains(self.path, z3.Unit(o))
+                pair = cx.box_tuple([cx.box_int(self.dist(self.cur, self.protos[i])), o])
+                exp = z3.Concat(exp, z3.If(z3.And(provides(self.cur, self.protos[i]), z3.Not(on_path)), z3.Unit(pair), EMPTY_SEQ))
+        return [("post:exactly-the-applicable-offers-not-yet-on-the-path-each-with-its-distance-in-registration-order", edges == exp)]
+
+    def covers(self, cx, ov, info):
+        return [("returns", lambda k, p, s: k == "return")]
